@@ -35,6 +35,7 @@ fn uni(cyls: usize,heads: usize,spt: usize,secsize: usize,id_base: usize) -> Geo
 /// kind names as accepted by `mkdsk -k`, plus `5.25in-13` for the 13 sector Apple disk
 pub fn geom(kind: &str) -> Geom {
     match kind {
+        "hdmax" => uni(65535,1,1,512,0),
         "5.25in" => uni(35,1,16,256,0),
         "5.25in-13" => uni(35,1,13,256,0),
         "3.5in-ss" => Geom { zones: [12,11,10,9,8].iter().map(|s| Zone{cyls:16,heads:1,spt:*s,secsize:512}).collect(), id_base: 0, heads: 1, id_base_h1: 0 },
@@ -107,6 +108,12 @@ impl Rng {
             0 => vec![0;n], 1 => vec![0xff;n],
             2 => (0..n).map(|i| if i%2==0 {0xd5} else {0xaa}).collect(),
             3 => { let b = self.below(256) as u8; vec![b;n] },
+            4 => { // uniform except within the last few bytes / the first byte / one byte in the middle
+                let b = self.below(256) as u8; let mut v = vec![b;n];
+                if n>0 { let k = match self.below(3) { 0 => n-1-self.below(n.min(7)), 1 => 0, _ => self.below(n) }; v[k] = b.wrapping_add(1+self.below(254) as u8); }
+                v },
+            5 => { // two-byte pattern
+                let a = self.below(256) as u8; let b = self.below(256) as u8; (0..n).map(|i| if i%2==0 {a} else {b}).collect() },
             _ => (0..n).map(|_| self.below(256) as u8).collect()
         }
     }
